@@ -6,8 +6,8 @@
 (***************************************************************************)
 EXTENDS Message, TraceLib
 
-VARIABLES l, pkt, live, bad, done
-vars == << l, pkt, live, bad, done >>
+VARIABLES l, pkt, tkl, live, bad, done
+vars == << l, pkt, tkl, live, bad, done >>
 
 SameFields(got, exp) ==
   /\ got.ver = exp.ver /\ got.typ = exp.typ /\ got.code = exp.code
@@ -72,45 +72,61 @@ TypedOk(e, exp) ==
      /\ e.obs.some = o.some
      /\ (o.some => e.obs.ok = o.r.ok /\ (o.r.ok => e.obs.digits = o.r.v))
 
-JudgeCall(e, exp) ==
+\* The header's token-length nibble is builder state of its own: set_token synchronises it with
+\* the token, set_token_length / replacing the public header field set it directly.  It is written
+\* as stored; the round trip is only claimed while it agrees with the token (C01's messages).
+NextTkl(t, e, exp) ==
+  CASE e.f = "set_token" -> Len(e.a.v)
+    [] e.f = "set_tkl" -> e.a.n
+    [] e.f = "replace_header_raw" -> e.a.b % 16
+    [] e.f = "replace_header" -> Len(exp.tok)
+    [] OTHER -> t
+WithTkl(bytes, t) == [bytes EXCEPT ![1] = (@ \div 16) * 16 + t]
+
+JudgeCall(e, exp, t) ==
   IF HasField(e, "typed") /\ ~e.panicked /\ MsgOf(e.st) = exp /\ ~TypedOk(e, exp) THEN {"C06"} ELSE
-  IF e.panicked \/ MsgOf(e.st) # exp \/ e.st.tkl # Len(exp.tok) THEN {"C01"}
+  IF e.panicked \/ MsgOf(e.st) # exp \/ e.st.tkl # t
+  THEN (IF e.f \in {"add_option_uint", "add_option_str", "set_options_uint", "set_observe_value"} THEN {"C06"} ELSE {"C01"})
   ELSE LET x == ToBytes(exp, [some |-> FALSE, v |-> 0]) IN
        IF x.k = "ok"
-       THEN IF e.enc.k = "ok" /\ e.enc.bytes = x.bytes
-                 /\ e.dec.k = "ok" /\ MsgOf(e.dec.msg) = Norm(exp) /\ e.dec.msg.tkl = Len(exp.tok)
+       THEN IF e.enc.k = "ok" /\ e.enc.bytes = WithTkl(x.bytes, t)
+                 /\ (t = Len(exp.tok) => (e.dec.k = "ok" /\ MsgOf(e.dec.msg) = Norm(exp) /\ e.dec.msg.tkl = Len(exp.tok)))
             THEN {} ELSE {"C01"}
        ELSE IF e.enc.k = "err" THEN {} ELSE {"C04"}
 
-Init == l = 1 /\ pkt = DefaultMsg /\ live = FALSE /\ bad = << >> /\ done = FALSE
+Init == l = 1 /\ pkt = DefaultMsg /\ tkl = 0 /\ live = FALSE /\ bad = << >> /\ done = FALSE
 
 Step ==
   /\ l <= NRec /\ l' = l + 1 /\ UNCHANGED done
   /\ LET e == Rec[l] IN
-     CASE e.op = "reset" -> pkt' = DefaultMsg /\ live' = TRUE /\ UNCHANGED bad
+     CASE e.op = "reset" -> pkt' = DefaultMsg /\ tkl' = 0 /\ live' = TRUE /\ UNCHANGED bad
        [] e.op = "from_bytes" ->
             LET j == JudgeFromBytes(e) IN
             /\ bad' = IF j = {} THEN bad ELSE AddBad(bad, BadEntry(l, j, "decode"))
-            /\ UNCHANGED << pkt, live >>
+            /\ UNCHANGED << pkt, tkl, live >>
        [] e.op \in {"uint_enc", "uint_dec", "str_dec"} ->
             LET j == IF e.op = "uint_enc" THEN JudgeUintEnc(e)
                      ELSE IF e.op = "uint_dec" THEN JudgeUintDec(e) ELSE JudgeStr(e) IN
             /\ bad' = IF j = {} THEN bad ELSE AddBad(bad, BadEntry(l, j, "typed option value"))
-            /\ UNCHANGED << pkt, live >>
+            /\ UNCHANGED << pkt, tkl, live >>
        [] e.op = "to_bytes" ->
             LET j == JudgeToBytes(e) IN
             /\ bad' = IF j = {} THEN bad
                       ELSE AddBad(bad, BadEntry(l, j, "serialise"))
-            /\ UNCHANGED << pkt, live >>
+            /\ UNCHANGED << pkt, tkl, live >>
        [] e.op = "call" ->
-            IF ~live THEN UNCHANGED << pkt, live, bad >>
-            ELSE LET exp == Apply(pkt, e)
-                     j == JudgeCall(e, exp) IN
-                 /\ pkt' = exp
+            IF ~live THEN UNCHANGED << pkt, tkl, live, bad >>
+            ELSE LET exp == IF e.f \in {"set_tkl", "replace_header_raw"}
+                            THEN (IF e.f = "set_tkl" THEN pkt
+                                  ELSE [pkt EXCEPT !.ver = e.a.b \div 64, !.typ = (e.a.b \div 16) % 4, !.code = e.a.code, !.mid = e.a.mid])
+                            ELSE Apply(pkt, e)
+                     t == NextTkl(tkl, e, exp)
+                     j == JudgeCall(e, exp, t) IN
+                 /\ pkt' = exp /\ tkl' = t
                  /\ live' = (j = {})
                  /\ bad' = IF j = {} THEN bad ELSE AddBad(bad, BadEntry(l, j, "builder"))
 
-Finish == l = NRec + 1 /\ ~done /\ done' = TRUE /\ UNCHANGED << l, pkt, live, bad >>
+Finish == l = NRec + 1 /\ ~done /\ done' = TRUE /\ UNCHANGED << l, pkt, tkl, live, bad >>
           /\ WriteResult(bad, [drift |-> Cardinality({i \in 1 .. NRec : Drift(Rec[i])}),
                                     episodes |-> Cardinality({i \in 1 .. NRec : Rec[i].op # "call"})])
 
